@@ -78,7 +78,9 @@ LANGS = ["en", "EN", "en-US", "en-us", "de", "fr-CA", "zh-Hant-TW", "x-priv", "s
 # (lexical forms here are ones that rdflib's normalisation maps to themselves; checked in self-test of c03)
 TYPED_CANON = [
     ("integer", ["0", "1", "-1", "42", "123456789012345678901234567890", "-7"]),
-    ("decimal", ["0.0", "1.5", "-1.5", "0.1", "123.456", "100.0", "1", "0", "-0.0", "1.000"]),
+    ("decimal", ["0.0", "1.5", "-1.5", "0.1", "123.456", "100.0", "1", "0", "-0.0", "1.000",
+                 # finite decimals beyond the range of a double (float() of them is inf)
+                 "1" + "0" * 310, "-1" + "0" * 310 + ".5"]),
     ("double", ["0.0", "1.0", "-1.5", "10000000000.0", "1e-07", "INF", "-INF", "NaN", "1.2345678901234568e+18", "10000001.0", "0.1"]),
     ("float", ["0.0", "1.0", "2.5"]),
     ("boolean", ["true", "false"]),
